@@ -7,6 +7,8 @@ package omniwitness
 
 //@ func (LogConfig).AsLogMap
 //@   returns (m, err)
+//@   // (the global quantified axioms -- tile paths, text lines -- are not needed here and only disturb the solver)
+//@   opt axioms=none
 //@   let logs := config.Logs
 //@   // every entry of the result is filed under the ID of its own origin
 //@   ensures[C02.m,C12.k] err == nil ==> m != nil && (forall k string :: k in m ==> k == ID(m[k].Origin))
